@@ -1129,7 +1129,8 @@ class StochasticTMLE:
             else:
                 df[self.exposure] = np.nan
                 for c, prop in zip(conditional, p):
-                    df[self.exposure] = np.random.binomial(n=1, p=prop, size=df.shape[0])
+                    df[self.exposure] = np.where(eval(c), np.random.binomial(n=1, p=prop, size=df.shape[0]),
+                                                 df[self.exposure])
 
             # Outcome model under treatment plan
             if self._out_model_custom:
